@@ -63,7 +63,73 @@ def strat_prop(tag, extra_modes=()):
                 explanation='sampled traces; the theorems quantify over all histories')
 
 
+def _approx(a, b):
+    """impl float repr vs model rational (hex num/den)"""
+    try:
+        x = float(a)
+        n, d = b.split('/')
+        y = int(n, 16) / int(d, 16)
+    except Exception:
+        return a == b
+    return abs(x - y) <= 1e-9 + 1e-7 * max(abs(x), abs(y))
+
+
+def compare_state(inp, impl_out, model_out):
+    a, b = norm_fault(impl_out), norm_fault(model_out)
+    if a.startswith('fault') or b.startswith('fault'):
+        return a.split(' ')[0][:5] == b.split(' ')[0][:5]
+    ta = re.split(r'([,;| ])', a)
+    tb = re.split(r'([,;| ])', b)
+    if len(ta) != len(tb):
+        return False
+    for x, y in zip(ta, tb):
+        if x == y:
+            continue
+        if x.startswith('~') and y.startswith('~'):
+            if not _approx(x[1:], y[1:]):
+                return False
+        elif x.startswith('^') and y.startswith('^'):
+            if x[1:] == '-' or y[1:] == '-' or abs(int(x[1:]) - int(y[1:])) > 2:
+                return False
+        else:
+            return False
+    return True
+
+
+def state_nontrivial(inp, outp):
+    return ';' in inp and 'C:' in inp
+
+
+STATE_RULE = ('synthetic histories of published rounds (arbitrary mixes of Complete/Awaited/Failed/Skipped/NotSent, rtt 0 ns..2 s incl. received<sent, first ttl 1..250, '
+              'hosts from a small pool with path variants, Dublin-style expected/actual checksums, sample limits 0..256, max_flows 0..64, 1..40 rounds; one quarter with out-of-range ttl 0/255 and arbitrary largest_ttl) '
+              'applied to the real State::update_from_round; every public getter of every hop of every flow is dumped and compared with the extracted model '
+              '(integers exactly, f64 statistics against exact rationals within 1e-7 relative, from_secs_f64 round trips within 2 ns); non-trivial = at least two rounds and one completed probe')
+
+
+def compare_any(inp, impl_out, model_out):
+    if inp.startswith('run '):
+        return compare_run(inp, impl_out, model_out)
+    if inp.startswith('state '):
+        return compare_state(inp, impl_out, model_out)
+    return compare_exact(inp, impl_out, model_out)
+
+
+def any_nontrivial(inp, outp):
+    return run_nontrivial(inp, outp) if inp.startswith('run ') else state_nontrivial(inp, outp)
+
+
+def state_prop(tag):
+    return dict(crates=['hcore'], modes=[('hcore', 'state')], nontrivial=state_nontrivial, rule=STATE_RULE,
+                compare=compare_state, oracle_tag=tag, explanation='sampled histories; the theorems quantify over all histories')
+
+
 PROPS = {
+    'C05': state_prop('C05'),
+    'C10': dict(crates=['hcore'], modes=[('hcore', 'state'), ('hcore', 'run')], nontrivial=any_nontrivial,
+                rule=STATE_RULE + ' || ' + RUN_RULE, compare=compare_any, oracle_tag='C10',
+                explanation='sampled histories; the theorems quantify over all histories'),
+    'C15': state_prop('C15'),
+    'C19': state_prop('C19'),
     'C03': strat_prop('C03'),
     'C06': strat_prop('C06'),
     'C07': strat_prop('C07'),
